@@ -72,6 +72,16 @@ pub fn run_profile(ctx: &RunCtx, p: &Profile, cases: u64, report: &mut Report) {
     run_generated(ctx, p.phase, cases, mk, runf, &sample_case, report);
 }
 
+/// Generated search over the scale histories (see `scale_case_strategy`); checks run after every step as in `run_profile`
+pub fn run_profile_scale(ctx: &RunCtx, p: &Profile, cases: u64, report: &mut Report) {
+    let findings = ctx.findings.clone();
+    let runf = |c: &Case, d: &Path| run_history(c, d, p, &findings);
+    run_replays::<Case, _>(ctx, p.phase, &ctx.verif_dir.join("replays").join(p.id), runf, report);
+    let runf = |c: &Case, d: &Path| run_history(c, d, p, &findings);
+    let mk = || scale_case_strategy(cfg_strategy(p.keylens, p.short_defer), &p.gen);
+    run_generated(ctx, p.phase, cases, mk, runf, &sample_case, report);
+}
+
 pub fn has(l: &BTreeSet<String>, s: &str) -> bool {
     l.contains(s)
 }
